@@ -131,6 +131,19 @@ func c05Monitor(run *ev.Run, spec world.Spec) hMonitor {
 		// tokens / login state only under ids the service itself issued
 		for _, c := range o.Calls {
 			if (c.Method == "SetTokenResponse" || c.Method == "SetAuthorizationState") && c.Fault != "before" {
+				// tokens: only under ids that were handed out in a Set-Cookie. Login state: under an id the service
+				// generated itself (when the store write fails after taking effect the answer is an error without
+				// cookie, so the id is stored although no client ever learns it - harmless and not what the property
+				// forbids)
+				generated := false
+				for _, g := range w.Gen.SIDs {
+					if g == c.SID {
+						generated = true
+					}
+				}
+				if c.Method == "SetAuthorizationState" && generated {
+					continue
+				}
 				if !o.IssuedBefore[c.SID] && c.SID != newSID {
 					viol("stored-under-unissued-id method="+c.Method+" presented="+presented,
 						fmt.Sprintf("%s under an id the service never put into a Set-Cookie (presented: %s)", c.Method, presented), hist, o.Event)
@@ -178,7 +191,7 @@ func c05Run(run *ev.Run) {
 	}
 	depth := 5
 	if run.Tier == "thorough" {
-		depth = 7
+		depth = 6
 	}
 	var total seqx.Stats
 	specs := []world.Spec{
